@@ -499,7 +499,10 @@ def run(ctx):
             r9.check(ok, 'allwrite-return--1-needs-w==-1', x.where, 'failure return not guarded by w == -1')
         else:
             r9.bad('allwrite-return-other', x.where, 'unexpected return value')
-    r9.expect_min(2)
+    from rules import shortwrite
+    for inst, v in sorted(shortwrite.allwrite_sites(db, rep).items()):
+        r9.check(v[0], 'allwrite:' + inst, v[1], v[2], v[3])
+    r9.expect_min(4)
     fl = db.fn('substdo.c', 'substdio_flush')
     okf = False
     for x in fl.all_x():
